@@ -316,7 +316,35 @@ def c04(ck):
         extra.append(feed_line(cid + "_without", svc, [stream_of(rest)]))
         for i in pos:
             extra.append(feed_line("%s_only%d" % (cid, i), svc, [enc(reqs[i])]))
+    # a oneway call of a method that upgrades the connection: no reply either (the scripted method marks the call upgraded, then replies)
+    up_ids = []
+    for f_ in ow_flags:
+        uid = "up_%s" % f_
+        extra.append(feed_line(uid, svc, [enc(make("upgrade", f_, {"n": 1}))]))
+        up_ids.append((uid, f_))
+    # the member spelled out as false is not oneway: answered exactly like the same request without the member
+    of_pairs = []
+    for k in kinds():
+        if k == "upgrade":
+            continue
+        for base_f, false_f in (("-", "oneway_false"),):
+            a_id, b_id = "of_%s_plain" % k, "of_%s_false" % k
+            extra.append(feed_line(a_id, svc, [enc(make(k, base_f, {"n": 1}))]))
+            extra.append(feed_line(b_id, svc, [enc(make(k, false_f, {"n": 1}))]))
+            of_pairs.append((k, a_id, b_id))
     impl, model = run_both(ck, lines + extra, model_ok, shards=12)
+    for uid, f_ in up_ids:
+        ck.case("oneway-upgrade|" + f_)
+        ck.count("oneway_kind=upgrade")
+        if "out=" not in impl[uid] or out_of(impl[uid]) != b"":
+            ck.failures.append({"what": "a oneway request was answered (method that upgrades the connection)", "request": make("upgrade", f_, {"n": 1}),
+                                "result": impl[uid][:300]})
+    for k, a_id, b_id in of_pairs:
+        ck.case("oneway-false|" + k)
+        ck.count("oneway_false_kinds")
+        if "out=" not in impl[a_id] or "out=" not in impl[b_id] or not same_out(out_of(impl[a_id]), out_of(impl[b_id])):
+            ck.failures.append({"what": "a request that spells out \"oneway\": false is not answered like the same request without the member",
+                                "request": make(k, "oneway_false", {"n": 1}), "with_member": impl[b_id][:300], "without_member": impl[a_id][:300]})
     ck.rule = ("every request kind (%d) with oneway / more+oneway alone; oneway at every position of sequences of length 2-3 for every kind; "
                "random sequences to length 12 with 40%% oneway requests; through handle() in memory and a sample through listen(); "
                "non-trivial = oneway request with neighbours; distinct by kind sequence") % (len(kinds()) - 1)
@@ -545,6 +573,7 @@ def c02(ck):
             smeta[cid] = (name, s, cs)
             sl.append("%s listenu %d %s | %s" % (cid, 4000, svc.tokens(), " ".join(hx(c) for c in cuts_to_chunks(s, cs))))
     c02_reference_caller(ck, quick, rng)
+    c02_upgraded_unread(ck, quick, rng, svc)
     simpl = run_lines(harness_bin("h_service"), sl, shards=6, timeout=900)
     for cid, (name, s, cs) in smeta.items():
         ck.case("sock|%s|%s|%s" % (cid[0], name, cs))
@@ -552,6 +581,41 @@ def c02(ck):
         if not same_out(out_of(simpl[cid]), out_of(impl["w_" + name])) or "timeout=1" in simpl[cid]:
             ck.failures.append({"what": "reply bytes over a listen() socket depend on the sender's segmentation / differ from in-memory",
                                 "stream": name, "cuts": cs, "socket": simpl[cid][:300], "memory": impl["w_" + name][:300]})
+
+
+def c02_upgraded_unread(ck, quick, rng, svc):
+    """an upgraded handler that follows call_upgraded's contract to the letter: it consumes the complete records (lines) of
+    the buffer it is shown and returns an incomplete last record as unread bytes, which handle() hands to the caller as
+    the tail. Reply bytes, final tail and upgraded interface must not depend on where the stream was cut."""
+    up = enc(req("org.example.a.Run", {"script": ["u", "r"], "tag": "up"}, upgrade=True))
+    payloads = [b"alpha\nbravo\ncharlie\n", b"one\n\ntwo\nunfinished", b"x" * 40 + b"\n" + b"y" * 30 + b"\nzz"]
+    lines, meta = [], {}
+    n = 0
+    for pi, pl in enumerate(payloads):
+        s_ = enc(make("ok", "-", 0)) + up + pl      # (no GetInfo here: its interface list is in HashMap order, per instance)
+        first = len(s_) - len(pl)
+        cutsets = [[]] + [[c] for c in range(first, len(s_))] + [list(range(1, len(s_)))]
+        for _ in range(10 if quick else 200):
+            cutsets.append(sorted(rng.sample(range(1, len(s_)), rng.randint(2, 6))))
+        for cs in cutsets:
+            cid = "lu%d" % n
+            n += 1
+            lines.append(feed_line(cid, svc, cuts_to_chunks(s_, cs), op="feedl"))
+            meta[cid] = (pi, cs)
+    res = run_lines(harness_bin("h_service"), lines, shards=1, timeout=300)     # one process: the line mode is a process-wide switch
+    whole = {}
+    for cid, (pi, cs) in meta.items():
+        if not cs:
+            whole[pi] = res[cid]
+    for cid, (pi, cs) in meta.items():
+        ck.case("upgraded-unread|%d|%s" % (pi, cs))
+        ck.count("upgraded_unread_cases")
+        a, w = fields(res[cid]), fields(whole[pi])
+        if "out" not in a or (a.get("out"), a.get("tail"), a.get("upg"), a.get("closed")) != (w.get("out"), w.get("tail"), w.get("upg"), w.get("closed")):
+            ck.failures.append({"what": "with an upgraded handler that returns an incomplete record as unread bytes, reply bytes / tail depend on the segmentation",
+                                "payload": payloads[pi].decode(), "cuts": cs[:12], "whole": whole[pi][:300], "segmented": res[cid][:300]})
+            if len(ck.failures) > 30:
+                break
 
 
 def c02_reference_caller(ck, quick, rng):
@@ -881,7 +945,7 @@ def c03(ck):
         for m in sorted(methods):
             params = rng.choice([None, {"script": ["w"], "tag": n}, {"script": ["w"], "tag": {"deep": [1, "x", None, True, {"k": -5}]}},
                                  {"script": ["w"]}, {"script": ["w"], "tag": "é\n\"\\"}])
-            fl = rng.choice([{}, {"more": True}, {"more": False}, {"upgrade": False}, {}])
+            fl = rng.choice([{}, {"more": True}, {"more": False}, {"upgrade": False}, {"oneway": False}, {}])
             r = req(m, params, **fl)
             cid = "m%d" % n
             n += 1
@@ -1255,8 +1319,11 @@ def c06(ck):
     sl, smeta = [], {}
     sample = [c for c in meta if not meta[c][0].startswith(("valid", "trunc"))]
     rng.shuffle(sample)
+    # deeply nested values always go over the sockets too: there they meet the worker threads' stacks
+    deep = [c for c in sample if meta[c][0].startswith("nest-") and int(meta[c][0].split(":")[1][:-1]) <= 128]
+    sample = deep + [c for c in sample if c not in set(deep)]
     healthy = stream_of(build_reqs([("ok", "-"), ("getinfo", "-"), ("stream", "more")]))
-    for i, cid in enumerate(sample[:(120 if quick else 1500)]):
+    for i, cid in enumerate(sample[:((120 + len(deep)) if quick else 1500)]):
         sl.append("%s listen 0 %s | %s" % (cid, svc.tokens(), hx(meta[cid][1])))
         if i % 3 == 0:
             sl.append("h%d listen 0 %s | %s" % (i, svc.tokens(), hx(healthy)))
@@ -1273,6 +1340,46 @@ def c06(ck):
     for cid in trunc[:(12 if quick else 150)]:
         sl.append("T%s listen 0 %s | %s" % (cid, svc.tokens(), hx(meta[cid][1])))
     simpl = run_lines(harness_bin("h_service"), sl, shards=4, timeout=900)
+    # the deeply nested messages once more against an unoptimised build of the server (what `cargo build` produces by default:
+    # the largest stack frames), each next to a healthy connection
+    okd, logd = build_harness(["h_service"], profile="deep")
+    if okd:
+        dl = []
+        for cid in deep:
+            dl.append("D%s listen 0 %s | %s" % (cid, svc.tokens(), hx(meta[cid][1])))
+        dl.append("Dhealthy listen 0 %s | %s" % (svc.tokens(), hx(healthy)))
+        dres = run_lines(harness_bin("h_service", profile="deep"), dl, shards=2, timeout=600)
+        for did, res in dres.items():
+            if not did.startswith("D") or did == "Dhealthy":
+                continue
+            base = did[1:]
+            ck.case("deep-unopt" + base)
+            ck.count("nested_over_socket_unoptimised")
+            if res.startswith(("PANIC", "NO-OUTPUT", "CONNECT-ERROR")):
+                ck.failures.append({"what": "the server process died / failed on a deeply nested message (unoptimised build, over a socket)",
+                                    "label": meta[base][0], "stream_hex": meta[base][1].hex()[:600], "result": res[:200]})
+            elif canon_reply_stream(out_of(res)) != canon_reply_stream(out_of(impl[base])) and fields(impl[base]).get("upg") == "none":
+                ck.failures.append({"what": "socket replies for a deeply nested message differ from in-memory (unoptimised build)", "label": meta[base][0],
+                                    "socket": res[:300], "memory": impl[base][:300]})
+    else:
+        ck.tie_broken.append("unoptimised harness build failed: " + logd[-300:])
+    # a fault on one connection stays local also in its after-effects: with a single worker thread, the connection that
+    # arrives after a malformed message (long, non-ASCII or not UTF-8 at every byte offset) is still served
+    hostile = ["é".encode() * 150, b"x" + "é".encode() * 150, b"\xff" * 300, b"x" + b"\xff" * 300, b"xx" + b"\xff" * 300,
+               b'{"method":"' + "ü".encode() * 120 + b'"', b"y" * 119 + "😀".encode() * 40]
+    okreq = enc(make("ok", "-", "later"))
+    pl = ["P%d listen_run 0 2500 1 1 %s | 0:150:%s 600:100:%s" % (i, svc.tokens(), hx(enc(make("getinfo", "-", 0)) + h + b"\0"), hx(okreq)) for i, h in enumerate(hostile)]
+    pres = run_lines(harness_bin("h_service"), pl, shards=len(pl), timeout=300, env=dict(ENV, VH_TMP=os.path.join(BUILD, "tmp")))
+    for i, h in enumerate(hostile):
+        ck.case("after-effect|%d" % i)
+        ck.count("single_worker_after_malformed")
+        r = pres.get("P%d" % i, "")
+        f = fields(r)
+        conns = [] if f.get("conns", "-") == "-" else f["conns"].split(";")
+        ok_later = len(conns) == 2 and conns[1].startswith("conn@") and len(conns[1].split(":")) == 3 and conns[1].split(":")[2] not in ("", "-")
+        if not ok_later or not f.get("ret", "").startswith("ok@"):
+            ck.failures.append({"what": "after a malformed message on one connection, a later connection to the same server (one worker thread) was not served, "
+                                        "or the server did not shut down cleanly", "malformed_message_hex": h.hex()[:300], "result": r[:300]})
     hw = run_lines(harness_bin("h_service"), [feed_line("hw", svc, [healthy])])["hw"]
     for cid, res in simpl.items():
         ck.count("socket_cases")
